@@ -80,7 +80,32 @@ class Graph:
         for e in cold_edges():
             if e['from'] == ff and e['to'] == tf:
                 return True
+        # the same edge through a new private helper (`fn switch_node(&self) { ..; self.node.set(Some(Node::get())) }` called from
+        # new_helping only): the helper is a function the rules have never seen, and every one of its callers is a listed source
+        # of this cold edge
+        froms = {e['from'] for e in cold_edges() if e['to'] == tf}
+        if froms and self._is_new_helper(frm['id']):
+            callers = self._callers().get(frm['id'], set())
+            if callers and all(self.fname(c) in froms or (self._is_new_helper(c) and self._callers().get(c) and
+                                                          all(self.fname(c2) in froms for c2 in self._callers()[c])) for c in callers):
+                return True
         return False
+
+    def _is_new_helper(self, iid):
+        b = self.body_of.get(iid)
+        return b is not None and b.crate is self.fx.lib and b.key in getattr(self.fx.lib, 'inlined_helpers', ())
+
+    def _callers(self):
+        if getattr(self, '_rev', None) is None:
+            rev = defaultdict(set)
+            for inst in self.inst:
+                if not inst:
+                    continue
+                for e in inst.get('calls', []):
+                    if e.get('to') is not None:
+                        rev[e['to']].add(inst['id'])
+            self._rev = rev
+        return self._rev
 
     NO_DROP = ('std::boxed::Box::<T, A>::leak', 'std::mem::forget', 'std::mem::ManuallyDrop::<T>::new',
                'std::sync::Arc::<T>::into_raw', 'std::rc::Rc::<T>::into_raw', 'std::sync::Weak::<T>::into_raw',
@@ -595,7 +620,9 @@ def rule_loop_free(fx, col):
         return {}
     seen, parent, cut_used = g.reach(list(roots.values()), cut_cold=True)
     for (f, t) in sorted(cut_used):
-        col.ok('COLD-EDGE', '%s -> %s' % (f, t), 'edge cut: ' + next(e['reason'] for e in cold_edges() if e['from'] == f and e['to'] == t))
+        col.ok('COLD-EDGE', '%s -> %s' % (f, t), 'edge cut: ' + next((e['reason'] for e in cold_edges() if e['from'] == f and e['to'] == t),
+                                                                     next((e['reason'] + ' (reached through the new helper %s, all of whose callers are sources of this cold edge)' % f
+                                                                           for e in cold_edges() if e['to'] == t), '')))
     _check_leaves(g, col, 'NO-BLOCK', seen, parent)
     cyc = g.cycles(seen, cut_cold=True)
     for (a, b) in cyc:
